@@ -712,6 +712,10 @@ func Compile(cfg *Config) (Compiled, ValidationResult) {
 		hasHMACOptions := r.AuthHMACSignatureHeaderSet || r.AuthHMACTimestampHeaderSet || r.AuthHMACNonceHeaderSet || r.AuthHMACToleranceSet
 		if hasHMACOptions && len(hmacSecrets) == 0 && len(hmacSecretRefs) == 0 {
 			res.Errors = append(res.Errors, fmt.Sprintf("route %q auth hmac options require at least one secret or secret_ref", rPath))
+		} else if r.AuthHMACBlockSet && len(r.AuthHMACSecrets) == 0 {
+			// An empty block declares HMAC authentication without any secret; the
+			// route would run without authentication.
+			res.Errors = append(res.Errors, fmt.Sprintf("route %q auth hmac block requires at least one secret or secret_ref", rPath))
 		}
 		if len(hmacSecrets) > 0 || len(hmacSecretRefs) > 0 {
 			effectiveSignatureHeader := hmacSignatureHeader
